@@ -163,6 +163,10 @@ func (h *handler1) run(ctx context.Context, snConn net.Conn) {
 			if err := h.snSend(snPkt); err != nil {
 				h.log.Error("Error sending CONNACK to a connection: %s", err)
 			}
+			// End the session's goroutine started above (it waits for the
+			// group's context) and wait for it.
+			h.group.Go(func() error { return err })
+			_ = h.group.Wait()
 			return
 		}
 	}
